@@ -1000,7 +1000,19 @@ def c04_17(ctx):
 
 
 
+def c04_18(ctx):
+    """compact-size integers and strings on every width boundary: canonical form written, inverse read (rules/bitcodecs.py varint_cells)"""
+    from rules.bitcodecs import try_cells, varint_cells
+    r = try_cells(varint_cells, ctx)
+    if r is None:
+        mod, fn = rl.get(ctx, "helper:encode_varint")
+        return [ctx.err("helper:encode_varint", "compact-size codec outside the evaluator's subset", fn, mod)]
+    return r
+
+
+
 OBLIGATIONS = [
+    ("C04.18", "CELLS compact size", c04_18),
     ("C04.17", "CELLS opaque template bytes", c04_17),
     ("C04.16", "CELLS witness round trip (bounded)", c04_16),
     ("C04.15", "RANGE accept-set", c04_15),
